@@ -509,7 +509,7 @@ func ruleParserReset(c *Ctx) *RuleResult {
 func ruleMapOrder(c *Ctx) *RuleResult {
 	r := &RuleResult{Doc: "every range over a map on a Search path either only copies entries into a fresh map under the same key (order-insensitive) or is one of the three places whose order the specification leaves open: keys(), values(), the object wildcard", Floor: 3}
 	exemptFn := map[*ssa.Function]string{}
-	for _, e := range c.A.Table {
+	for _, e := range c.table() {
 		if e.Key == "keys" || e.Key == "values" {
 			exemptFn[e.Handler] = e.Key + "()"
 		}
